@@ -1079,6 +1079,32 @@ fn slice_kmer<K: Kmer>(v: &DnaStringSlice, i: usize) -> Vec<u8> {
     mer_bases(&v.get_kmer::<K>(i))
 }
 
+/// Hamming-distance-1 neighbours of a k-mer (neighbors.rs)
+fn hd1_of<K: Kmer>(s: &[u8]) -> Vec<Vec<u8>> {
+    debruijn::neighbors::KmerOneHammingIter::new(K::from_bytes(s)).map(|k| mer_bases(&k)).collect()
+}
+pub fn hd1_event(sink: &Sink, r: &mut Rng) {
+    let k = *r.pick(&ALL_K);
+    let s = r.dna(k, &[0, 1, 2, 3]);
+    let desc = json!({"op":"hd1","K":k,"s":s});
+    let case = sink.begin_case(&desc);
+    let res = guard(|| with_kmer!(k, hd1_of(&s)));
+    sink.end_case();
+    let mut e = desc;
+    e["case"] = json!(case);
+    match res {
+        Ok(v) => {
+            e["nb"] = json!(v);
+            e["panic"] = json!("");
+        }
+        Err(m) => {
+            e["nb"] = json!([]);
+            e["panic"] = json!(m);
+        }
+    }
+    sink.emit(e);
+}
+
 /// all 256 extension sets through the whole Exts API
 pub fn exts_events(sink: &Sink) {
     for v in 0..=255u8 {
@@ -1385,6 +1411,9 @@ pub fn record(sink: &Sink, args: &Args) {
         exts_events(sink);
         for _ in 0..n * 60 {
             rcx_event(sink, &mut r);
+        }
+        for _ in 0..n * 10 {
+            hd1_event(sink, &mut r);
         }
     }
     if has("extract") {
